@@ -16,6 +16,9 @@ import Proofs.Types
 import Proofs.TypesRound
 import Proofs.JsonRound
 import Proofs.TypesAgree
+import Martian.JsonBytes
+import Proofs.JsonBytes
+import Proofs.JsonBytesFilter
 import Gen.Facts
 
 namespace Props.C17
@@ -531,5 +534,79 @@ example : Martian.TypesR.NumsExact (.obj [(ka, .num (.flt 10 (-1))),
     rcases hx with rfl | rfl | rfl <;> exact .num _ (by decide +kernel)
 
 end Rounded
+
+
+/-! ### 10. bytes: the JSON value grammar, and the splicing the filters really do
+
+`FilterJson` never builds a tree: it asks `encoding/json` for the raw slices of the members,
+filters each slice and either returns its input slice (when every member came back as the same
+slice) or concatenates brackets, member slices, commas, colons and re-encoded keys.
+Martian/JsonBytes.lean models the value grammar `encoding/json` accepts as a total byte parser
+(`parseV` / `parseTop`, tree = `J`), a canonical printer (`printJ`), and the filters as functions
+on raw messages (`filterA` on the annotated parse tree `A`; `filterBytes` on bytes).  `Den p j`
+(Proofs/JsonBytes.lean) = "the bytes `p`, followed by anything that may follow a value, are read
+as the tree `j` and nothing more is consumed". -/
+section Bytes
+open Martian.JsonBytes
+
+/-- the parser reads the canonical text of every tree back (strings and keys valid UTF-8) -/
+theorem json_parse_print (j : J) (h : wfJ j = true) : parseTop (printJ j) = some j :=
+  parseTop_printJ j h
+
+/-- … so the canonical printer is injective: equal bytes, equal trees -/
+theorem json_print_injective (j1 j2 : J) (h1 : wfJ j1 = true) (h2 : wfJ j2 = true)
+    (h : printJ j1 = printJ j2) : j1 = j2 :=
+  printJ_injective j1 j2 h1 h2 h
+
+/-- numbers are kept as written: `parseNum (printNum n ++ rest) = (n, rest)` before any delimiter -/
+theorem json_number_roundtrip (n : Num) (rest : Bytes) (hr : delim rest = true) :
+    parseNum (printNum n ++ rest) = some (n, rest) :=
+  parseNum_printNum n rest hr
+
+/-- THE SPLICE LEMMAS.  An array written as `[` pieces separated by `,` `]` denotes the array of
+the trees the pieces denote – whatever the pieces are (re-encoded or untouched input slices with
+their own white space) … -/
+theorem splice_array_denotes (ps : List Bytes) (js : List J) (h : All2 Den ps js) :
+    Den (spliceArr ps) (.arr js) :=
+  den_spliceArr ps js h
+
+/-- … and an object written as `{` keyToken `:` piece `,` … `}` denotes the object of the decoded
+keys and the trees of the pieces. -/
+theorem splice_object_denotes (ms : List (Bytes × Bytes)) (kvs : List (Bytes × J)) (h : All2 DenM ms kvs) :
+    Den (spliceObj ms) (.obj kvs) :=
+  den_spliceObj ms kvs h
+
+/-- SPLICE CORRECTNESS OF `FilterJson` (all types, all raw messages): if the input message is
+sound (every node's raw bytes denote that node's tree – what `encoding/json` hands out), then so is
+the returned message, on the fast path (input slice returned) and on every re-encoding path
+(array, typed map with `sort.Strings` keys and last-wins duplicates, struct with declared members
+in declaration order, `int` rewritten by `json.Marshal`). -/
+theorem filter_bytes_sound (t : Ty) (hk : tyKeysOk t = true) (a : A) (h : ASound a) :
+    ASound (filterA t a).out :=
+  sound_filterA t hk a h
+
+/-- … in particular the bytes returned parse, as a whole document, to the tree returned -/
+theorem filter_bytes_parse (t : Ty) (hk : tyKeysOk t = true) (a : A) (h : ASound a) :
+    parseTop (filterA t a).out.raw = some (filterA t a).out.toJ :=
+  parseTop_of_den (sound_filterA t hk a h).den
+
+/-- non-vacuity / witnesses, on bytes: `struct A(int a)` filters `{ "x":null, "a" : 1.0 }` to
+`{"a":1}` (re-encoded: member dropped, number rewritten) and returns `{ "a" : 1 }` untouched,
+white space included (fast path) -/
+example : (filterBytes tA [0x7B, 0x20, 0x22, 0x78, 0x22, 0x3A, 0x6E, 0x75, 0x6C, 0x6C, 0x2C, 0x20, 0x22, 0x61,
+      0x22, 0x20, 0x3A, 0x20, 0x31, 0x2E, 0x30, 0x20, 0x7D])
+    = some ([0x7B, 0x22, 0x61, 0x22, 0x3A, 0x31, 0x7D], .soft) := by decide +kernel
+example : (filterBytes tA [0x7B, 0x20, 0x22, 0x61, 0x22, 0x20, 0x3A, 0x20, 0x31, 0x20, 0x7D])
+    = some ([0x7B, 0x20, 0x22, 0x61, 0x22, 0x20, 0x3A, 0x20, 0x31, 0x20, 0x7D], .ok) := by decide +kernel
+/-- a sound message: the literal `1.0` with its tree -/
+example : ASound (.lit (printNum (.flt 10 (-1))) (.num (.flt 10 (-1)))) := .lit _ _ (den_num _)
+/-- the grammar is `encoding/json`'s: leading zeros, trailing commas, raw control bytes, garbage
+after the value are rejected; white space and duplicate keys are accepted -/
+example : parseTop [0x5B, 0x30, 0x31, 0x5D] = none ∧ parseTop [0x5B, 0x31, 0x2C, 0x5D] = none
+    ∧ parseTop [0x22, 0x01, 0x22] = none ∧ parseTop [0x31, 0x20, 0x32] = none
+    ∧ (parseTop [0x20, 0x5B, 0x0A, 0x31, 0x09, 0x5D, 0x0D]).map printJ = some [0x5B, 0x31, 0x5D] := by
+  decide +kernel
+
+end Bytes
 
 end Props.C17
